@@ -8,6 +8,10 @@ def negotiate(ours: dict, theirs: dict) -> dict:
     'enhanced_refresh': bool, 'extended': bool, 'addpath': {(afi,safi): mode 1 receive 2 send 3 both}}"""
     both = lambda k: bool(ours.get(k)) and bool(theirs.get(k))  # noqa: E731
     fams = [f for f in theirs['families'] if f in ours['families']]
+    if not theirs['families']:
+        # no Multiprotocol capability: a plain BGP-4 session carries IPv4 unicast (RFC 4271; RFC 4760 section 8 makes
+        # the capability the way to agree on anything ELSE)
+        fams = [(1, 1)] if (1, 1) in ours['families'] else []
     send, recv = {}, {}
     for f in set(ours.get('addpath', {})) | set(theirs.get('addpath', {})):
         o = ours.get('addpath', {}).get(f, 0)
